@@ -626,7 +626,19 @@ func (bc *boundsCtx) lenOf1(x ssa.Value) lterm {
 		}
 		if b, ok := y.Call.Value.(*ssa.Builtin); ok && b.Name() == "append" {
 			me := lterm{"len:" + bc.name(x), 0}
-			bc.z.addLE(bc.lenOf(y.Call.Args[0]), me)
+			la := bc.lenOf(y.Call.Args[0])
+			// append(a, e1, ..., ek): the variadic part is a full slice of a fresh [k]T
+			k := int64(0)
+			if len(y.Call.Args) == 2 {
+				if sl, ok := y.Call.Args[1].(*ssa.Slice); ok && sl.Low == nil && sl.High == nil {
+					if al, ok := sl.X.(*ssa.Alloc); ok {
+						if at, ok := deref(al.Type()).Underlying().(*types.Array); ok {
+							k = at.Len()
+						}
+					}
+				}
+			}
+			bc.z.addLE(lterm{la.v, la.c + k}, me)
 			return me
 		}
 	}
@@ -775,6 +787,37 @@ func (bc *boundsCtx) proveIndex(site ssa.Instruction, x, idx ssa.Value) (bool, s
 	z := bc.zoneAt(site.Block())
 	lo := z.entLE(lconst(0), it)
 	hi := z.entLT(it, lt)
+	// a phi index: each incoming value under the conditions of its own edge (a relational join the zone of the
+	// merge block cannot express); sound when the container is a parameter, whose length does not change
+	if ph, isPhi := idx.(*ssa.Phi); isPhi && (!lo || !hi) {
+		if _, isPrm := x.(*ssa.Parameter); isPrm {
+			for _, e := range ph.Edges {
+				bc.term(e)
+			}
+			allLo, allHi := true, true
+			for i, e := range ph.Edges {
+				pred := ph.Block().Preds[i]
+				if iff, ok := pred.Instrs[len(pred.Instrs)-1].(*ssa.If); ok {
+					bc.condFacts(iff.Cond, true)
+				}
+				ze := bc.zoneAt(pred)
+				if iff, ok := pred.Instrs[len(pred.Instrs)-1].(*ssa.If); ok {
+					for _, f := range bc.condFacts(iff.Cond, pred.Succs[0] == ph.Block()) {
+						bc.apply(ze, f)
+					}
+				}
+				et := bc.term(e)
+				if !ze.entLE(lconst(0), et) {
+					allLo = false
+				}
+				if !ze.entLT(et, lt) {
+					allHi = false
+				}
+			}
+			// the phi's block must dominate the use with no redefinition in between (SSA guarantees it)
+			lo, hi = lo || allLo, hi || allHi
+		}
+	}
 	if lo && hi {
 		return true, fmt.Sprintf("0 <= %s%+d < %s%+d entailed by dominating conditions", it.v, it.c, lt.v, lt.c)
 	}
